@@ -3,10 +3,10 @@
   witnesses and non-vacuity examples; helper lemmas are in `FwdVerif/Lemmas/C13.lean`).
 
   A. every exit path reports the request complete exactly once, under its own method, with the
-     status written to the client                      (false of the unchanged code: F12, F40)
+     status written to the client             (false of the unchanged code: F40; F12 is repaired)
   B. hence, after any set of completed exchanges in any interleaving, every in-flight series is 0
      and the request counter equals the number of requests, per series and in total
-  C. the in-flight gauge is never negative at any instant
+  C. the in-flight gauge is never negative at any instant (on every path of the grammar)
   D. the close callback fires exactly once for any number and interleaving of `Close` calls
   E. hence `active = accepted − closed ≥ 0`, and `active = 0` when all connections are gone
   F. byte counters equal the bytes moved
@@ -18,35 +18,43 @@ namespace C13
 
 /-! ## A. Exactly one completion report per request, on every exit path -/
 
-/-- full clause — FALSE of the unchanged code (F12, F40), see the witnesses -/
+/-- full clause — FALSE of the unchanged code (F40), see the witnesses -/
 def c13_exactly_once_full : Prop :=
   ∀ p : Path, p.valid = true → p.shutdown = false → p.events = p.expected
 
-/-- every path of the grammar that is not taken during shutdown and is not one of the two
-    recorded defect classes emits `read m` followed by exactly one `wrote m status`, `m` the
-    method of that request and `status` the status written to the client (and nothing at all
-    when no request was read) -/
+/-- every path of the grammar that is not taken during shutdown and is not of the recorded defect
+    class (a CONNECT answered 101 by the upstream proxy) emits `read m` followed by exactly one
+    `wrote m status`, `m` the method of that request and `status` the status written to the client
+    (and nothing at all when no request was read) -/
 theorem c13_exactly_once_partial (p : Path) (hv : p.valid = true) (hs : p.shutdown = false)
     (hd : p.defect = false) : p.events = p.expected :=
   events_eq_expected (by simp [Path.good, hv, hs, hd])
 
 -- non-vacuity: a refusal, an upstream error, a client abort while downloading, a tunnel teardown,
--- a drain failure, the MITM hand-off, an upgrade and a read error satisfy the hypotheses
+-- a drain failure, the MITM hand-off, an upgrade, a read error, a rejected client CONNECT and a
+-- CONNECT rejected inside the transport (the repaired F12) satisfy the hypotheses
 example : (Path.refused .get 407 false).good = true ∧ (Path.roundTripError .post 502 true).good = true ∧
     (Path.response .get 200 true).good = true ∧ (Path.connectTunnel .closed).good = true ∧
     (Path.connectTunnel .drainFailure).good = true ∧ Path.mitmHandoff.good = true ∧
     (Path.upgrade .get .closed).good = true ∧ Path.readError.good = true ∧
-    (Path.connectRejected 403 false).good = true := by decide
+    (Path.connectRejected 403 false).good = true ∧
+    (Path.transportConnectRejected .get 403 false).good = true ∧
+    (Path.transportConnectRejected .post 407 true).good = true := by decide
 
 example : (Path.connectTunnel .closed).events = [.read .connect, .wrote .connect 200] := by decide
 example : (Path.response .head 304 false).events = [.read .head, .wrote .head 304] := by decide
 
-/-- F12: `GET https://…` whose CONNECT the upstream proxy rejects with 403 inside the transport —
-    the completion is reported under CONNECT -/
-theorem c13_exactly_once_witness :
-    ∃ p : Path, p.valid = true ∧ p.shutdown = false ∧
-      p.events = [.read .get, .wrote .connect 403] ∧ p.expected = [.read .get, .wrote .get 403] :=
-  ⟨.transportConnectRejected .get 403 false, by decide, by decide, by decide, by decide⟩
+/-- the repaired F12: a request whose CONNECT the upstream proxy rejects inside the transport is
+    reported complete once, under the CLIENT's method, with the upstream proxy's status — whatever
+    the method, whatever the (non-2xx, non-101) status, whether or not the write to the client failed -/
+theorem c13_transport_connect_rejection_reported (m : Method) (st : Nat) (w : Bool)
+    (hm : m ≠ .connect) (h2 : st / 100 ≠ 2) (h101 : st ≠ 101) :
+    (Path.transportConnectRejected m st w).events = [.read m, .wrote m st] := by
+  have hv : (Path.transportConnectRejected m st w).valid = true := by simp [Path.valid, hm, h2]
+  have hd : (Path.transportConnectRejected m st w).defect = false := by simp [Path.defect, h101]
+  exact c13_exactly_once_partial _ hv rfl hd
+
+example : (Path.transportConnectRejected .get 403 false).events = [.read .get, .wrote .get 403] := by decide
 
 /-- F40: a client CONNECT that the upstream proxy answers with 101 is never reported complete -/
 theorem c13_exactly_once_witness_101 :
@@ -54,9 +62,16 @@ theorem c13_exactly_once_witness_101 :
       p.events = [.read .connect] ∧ p.expected = [.read .connect, .wrote .connect 101] :=
   ⟨.connectRejected 101 false, by decide, by decide, by decide, by decide⟩
 
+/-- F40 on the other rejection path: `GET https://…` whose transport-level CONNECT the upstream proxy
+    answers with 101 — the 101 is relayed and, being an error-free 101, never reported -/
+theorem c13_exactly_once_witness_101_transport :
+    ∃ p : Path, p.valid = true ∧ p.shutdown = false ∧
+      p.events = [.read .get] ∧ p.expected = [.read .get, .wrote .get 101] :=
+  ⟨.transportConnectRejected .get 101 false, by decide, by decide, by decide, by decide⟩
+
 theorem c13_exactly_once_full_false : ¬ c13_exactly_once_full := by
   intro h
-  have := h (.transportConnectRejected .get 403 false) (by decide) (by decide)
+  have := h (.connectRejected 101 false) (by decide) (by decide)
   exact absurd this (by decide)
 
 /-- the skip rule is exact on the paths that do tunnel: the head write is silent and the one report
@@ -72,13 +87,13 @@ theorem c13_write_error_reported (m : Method) (st : Nat) :
 
 /-! ## B. Conservation at quiescent points -/
 
-/-- full clause — FALSE of the unchanged code (F12) -/
+/-- full clause — FALSE of the unchanged code (F40) -/
 def c13_inflight_zero_full : Prop :=
   ∀ (ps : List Path) (tr : List Event), (∀ p ∈ ps, p.valid = true ∧ p.shutdown = false) →
     tr.Perm (ps.flatMap Path.events) → ∀ m, (run .zero tr).inflight m = 0
 
 /-- after any list of completed exchanges (any exit paths outside shutdown and the recorded defect
-    classes), observed in any order of events whatsoever (`Perm`: every interleaving across
+    class F40 — transport-level CONNECT rejections included), observed in any order of events whatsoever (`Perm`: every interleaving across
     connections), every in-flight series is 0 -/
 theorem c13_inflight_zero_partial (ps : List Path) (hg : ∀ p ∈ ps, p.good = true)
     (tr : List Event) (hp : tr.Perm (ps.flatMap Path.events)) (m : Method) :
@@ -122,16 +137,16 @@ example :
     .read .connect, .wrote .connect 200]
   decide
 
-/-- F12 on the counters: one rejected `GET https://…` leaves in-flight{GET} = 1 and
-    in-flight{CONNECT} = −1 for ever, and counts the request under CONNECT -/
-theorem c13_inflight_zero_witness :
-    let c := run .zero (Path.transportConnectRejected .get 403 false).events
-    c.inflight .get = 1 ∧ c.inflight .connect = -1 ∧ c.total 403 .connect = 1 ∧ c.total 403 .get = 0 := by
+-- the repaired F12 on the counters: a rejected `GET https://…` next to a rejected client CONNECT —
+-- everything back at 0, each counted once under its own method
+example :
+    let c := run .zero ([Path.transportConnectRejected .get 403 false, .connectRejected 403 false].flatMap Path.events)
+    c.inflight .get = 0 ∧ c.inflight .connect = 0 ∧ c.total 403 .get = 1 ∧ c.total 403 .connect = 1 := by
   decide
 
 theorem c13_inflight_zero_full_false : ¬ c13_inflight_zero_full := by
   intro h
-  have := h [.transportConnectRejected .get 403 false] _ (by decide) (List.Perm.refl _) .get
+  have := h [.connectRejected 101 false] _ (by decide) (List.Perm.refl _) .connect
   exact absurd this (by decide)
 
 /-- F40 on the counters: in-flight{CONNECT} stays 1 and nothing is counted -/
@@ -143,40 +158,35 @@ theorem c13_inflight_zero_witness_101 :
 /-! ## C. The gauge is never negative -/
 
 /-- at every instant (every prefix of every order-preserving interleaving of the exchanges'
-    traces) every in-flight series is ≥ 0 -/
-theorem c13_gauge_nonneg_partial (ps : List Path) (hg : ∀ p ∈ ps, p.good = true)
-    (tr : List Event) (hi : Interleaving (ps.map Path.events) tr)
+    traces) every in-flight series is ≥ 0 — for EVERY list of paths of the grammar, no class
+    excluded: every path reports its request under the request's own method, at most once and never
+    before it was read (the F40 paths and the shutdown path leave the gauge too high, never too low) -/
+theorem c13_gauge_nonneg (ps : List Path) (tr : List Event) (hi : Interleaving (ps.map Path.events) tr)
     (pre suf : List Event) (h : tr = pre ++ suf) (m : Method) :
     0 ≤ (run .zero pre).inflight m := by
-  have hev : ∀ p ∈ ps, p.events = p.expected := fun p hp => events_eq_expected (hg p hp)
   apply interleaving_inflight hi m _ .zero _ pre suf h
   · intro l hl
-    obtain ⟨p, hp, rfl⟩ := List.mem_map.mp hl
-    rw [hev p hp]; exact rem_expected p
+    obtain ⟨p, _, rfl⟩ := List.mem_map.mp hl
+    exact rem_events p
   · have : owedSum m (ps.map Path.events) = 0 := by
       clear hi
       induction ps with
       | nil => rfl
       | cons p t ih =>
-        have hp := hev p (List.mem_cons_self)
-        have ht := ih (fun q hq => hg q (List.mem_cons_of_mem _ hq))
-          (fun q hq => hev q (List.mem_cons_of_mem _ hq))
-        simp only [owedSum, List.map_cons, List.sum_cons] at ht ⊢
-        rw [hp, owed_expected, ht]
+        simp only [owedSum, List.map_cons, List.sum_cons] at ih ⊢
+        rw [owed_events, ih]
     simp [this, Counters.zero]
 
--- non-vacuity: two concurrent exchanges, the second one starts and finishes inside the first
+-- non-vacuity: three concurrent exchanges — the second starts and finishes inside the first, the
+-- third is a transport-level CONNECT rejection (the path on which the gauge did go negative, F12)
 example : Interleaving
-    ([Path.response .get 200 false, Path.connectTunnel .closed].map Path.events)
-    [.read .get, .read .connect, .wrote .connect 200, .wrote .get 200] := by
-  show Interleaving [[.read .get, .wrote .get 200], [.read .connect, .wrote .connect 200]] _
-  exact .step (l1 := []) (.step (l1 := [[.wrote .get 200]]) (.step (l1 := [[.wrote .get 200]])
-    (.step (l1 := []) (.drop (.drop .nil)))))
-
-/-- with the F12 path the gauge does go negative: −1 under CONNECT right after the report -/
-theorem c13_gauge_nonneg_witness :
-    (run .zero (Path.transportConnectRejected .get 403 false).events).inflight .connect < 0 := by
-  decide
+    ([Path.response .get 200 false, Path.connectTunnel .closed, Path.transportConnectRejected .get 403 false].map Path.events)
+    [.read .get, .read .connect, .read .get, .wrote .connect 200, .wrote .get 403, .wrote .get 200] := by
+  show Interleaving [[.read .get, .wrote .get 200], [.read .connect, .wrote .connect 200],
+    [.read .get, .wrote .get 403]] _
+  exact .step (l1 := []) (.step (l1 := [[.wrote .get 200]]) (.step (l1 := [[.wrote .get 200], [.wrote .connect 200]])
+    (.step (l1 := [[.wrote .get 200]]) (.step (l1 := [[.wrote .get 200], []])
+    (.step (l1 := []) (.drop (.drop (.drop .nil))))))))
 
 /-! ## D. The close callback fires exactly once -/
 
